@@ -27,6 +27,7 @@ use base64::prelude::*;
 use parking_lot::{Mutex, RwLock};
 use std::collections::{HashMap, HashSet, VecDeque};
 use std::net::IpAddr;
+#[cfg(not(rustrtc_verif))]
 use std::{
     sync::{
         Arc,
@@ -34,6 +35,16 @@ use std::{
     },
     time::{Duration, Instant, SystemTime, UNIX_EPOCH},
 };
+#[cfg(rustrtc_verif)]
+use std::{
+    sync::{
+        Arc,
+        atomic::{AtomicBool, AtomicU8, AtomicU16, AtomicU32, AtomicU64, Ordering},
+    },
+    time::{Duration, SystemTime, UNIX_EPOCH},
+};
+#[cfg(rustrtc_verif)]
+use crate::verif_hooks::Instant;
 use tokio::sync::{Notify, broadcast, mpsc, watch};
 use tracing::{Instrument, debug, debug_span, trace, warn};
 
